@@ -469,13 +469,11 @@ def c09(run):
                 break
     run.extra["instants_observed"] = instants
     # ---- P-trace over states reached by random histories: the operation sequence of the LAST call of each history
-    A = seq.alphabet("all", contents={7: 1, 8: 2}, pids=(1, 2, 3))
+    A = seq.alphabet("all", contents={7: 1, 8: 1}, pids=(1, 2, 3))      # one size per content id: a content token is one byte string
     for _ in range(40 if quick else 500):
         h = seq.random_history(rng, A, rng.randint(1, 7))
         for c in h:
             c.pop("real", None)
-            if c["op"] == "so":
-                c["n"] = {7: 1, 8: 2}[c["b"]]
         u = Universe()
         for _i in range(2):
             seq.prepare(u, h)
